@@ -205,7 +205,8 @@ def run_case(case, ctx):
             ctx.stat("cg_not_converged(inconclusive)")
             return
         tolc = cfg.get("cg_tolerance") or 1.0
-        bound = 3 * tolc + 1e-5 + 10 * kappa * eps  # the solver tracks the recursively updated residual, not the true one
+        # the solver tracks the recursively updated (and, with a preconditioner, differently normed) residual, not the true one
+        bound = 5 * tolc + 1e-5 + 10 * kappa * eps
         if left is None:
             g64 = got.to(torch.float64)
             if rhs.dim() > 1:
@@ -232,7 +233,8 @@ def run_case(case, ctx):
         tol = max(tol, 1e-4 * max(kappa, 1.0))
     if zoo.spec_classes(spec) & {"Toeplitz", "Interpolated"}:
         tol = max(tol, compare.tol_fft(dt))
-    err = compare.relerr(got, want, scale=float(want.norm()) * 0 + 1e-300)
+    # with a left factor the product L X may cancel: its rounding error is relative to |L| |X|, not to |L X|
+    err = compare.relerr(got, want, scale=(float(left.to(torch.float64).norm()) * float(ref.norm()) if left is not None else 0.0) + 1e-300)
     if not err <= tol:
         ctx.fail("solve", "value", err=err, detail=f"kappa {kappa:.2e} tol {tol:.2e}", **kw)
     else:
